@@ -1035,6 +1035,60 @@ def find_sample_size_comparison(S, I, variant):
          x.at(i), exp)
 
 
+@script(["C16"], "Assertion.find_sample_size/polling data (symbolic tallies of 3 candidates, symbolic N)")
+def find_sample_size_polling(S, I, variant):
+    """the hypothetical population for a polling audit: the reported tallies interleaved -- loser's votes at 0, winner's votes at the
+    assorter's upper bound, every other card (other candidates, no valid vote) at 1/2; interleave_values is used through its
+    contract (proved by the loop-invariant script), the test's estimator through its interface"""
+    c = ctx()
+    N = S.integer("N", lo=1)
+    u_a = S.real("u_a", lo=Fraction(1, 2))
+    v = S.real("margin", lo_strict=0)
+    rl = S.real("risk_limit", lo_strict=0, hi=Fraction(1, 2))
+    tW, tL, tO = S.integer("tally_W", lo=0), S.integer("tally_L", lo=0), S.integer("tally_O", lo=0)
+    c.assume(icmp("<=", iadd(iadd(tW, tL), tO), N))
+    con = mk_contest(I, id="con", cards=N, candidates=["W", "L", "O"], winner=["W"], audit_type="POLLING", risk_limit=rl)
+    con.attrs["tally"] = {"W": tW, "L": tL, "O": tO}
+    calls, ivcalls = [], []
+    ret = S.integer("estimate", lo=1)
+
+    def sample_size(I_, a, k):
+        k = dict(k)
+        calls.append((a[0] if a else k.pop("x", None), k))
+        return ret
+
+    pop = S.array("interleaved", N, 0, None)
+
+    def interleave_contract(I_, fn, args, kwargs):
+        names = ["n_small", "n_med", "n_big", "small", "med", "big"]
+        args = [a_ for a_ in args if type(a_).__name__ != "ClassRef"]       # (classmethod: the class itself may be passed first)
+        got = dict(zip(names, args))
+        got.update(kwargs)
+        ivcalls.append(got)
+        return pop
+
+    I.contracts["Assertion.interleave_values"] = interleave_contract
+    NM = I.get("shangrla.core.NonnegMean", "NonnegMean")
+    test = Obj(NM, {"N": N, "u": u_a, "sample_size": Builtin("abstract_sample_size", sample_size)})
+    assorter = abstract_assorter(S, I, con, u_a, [])
+    asn = Obj(I.get(MOD, "Assertion"), {"contest": con, "assorter": assorter, "margin": v, "test": test, "winner": "W", "loser": "L",
+                                        "sample_size": None})
+    out, exc = guard(S, I, lambda: I.call(I.getattr(asn, "find_sample_size"), [], {}))
+    if exc:
+        return
+    S.holds("the population is built by one call of interleave_values and estimated by one call of the test", len(ivcalls) == 1 and len(calls) == 1)
+    if len(ivcalls) != 1 or len(calls) != 1:
+        return
+    g = ivcalls[0]
+    S.holds("loser's votes are the 0s, winner's votes the values at the upper bound, every other card of the population a 1/2",
+            band(icmp("==", g["n_small"], tL), icmp("==", g["n_big"], tW), icmp("==", g["n_med"], isub(isub(N, tL), tW))))
+    S.holds("values: 0 (default), 1/2 (default), assorter upper bound",
+            band(bterm(I.equal(g.get("small", 0), 0)), xsame(xr(g.get("med", HALF)), HALF), xsame(xr(g["big"]), u_a)))
+    x, kws = calls[0]
+    S.holds("the test is run on exactly that population, with the contest's own risk limit", x is pop and kws.get("alpha") is rl)
+    S.holds("returns and records the test's estimate", band(bterm(I.equal(out, ret)), bterm(I.equal(asn.attrs["sample_size"], ret))))
+
+
 # ------------------------------------------------------------------ C06 / C07: mvrs_to_data, UNBOUNDED number of sampled cards
 
 def lazy_assorter(S, I, con, u_a, means):
